@@ -31,9 +31,10 @@ TRUSTED_BASE = [
     "store-backed fakes of bank, x/distribution and the ICS-20 keeper in harness/c16/fakes_test.go (state in the same multistore, so "
     "CacheContext rollback applies to them as to the real modules)",
 ]
-LEVEL_NOTE = ("two clauses of the property text are refuted by the model and reproduced on the real code: per-validator truncation dust "
-              "stays in the distribution module account unrecorded (C16_remainder_refuted), and in the zero-power branch a failed "
-              "FundCommunityPool still consumes the credit (C16_lossless_refuted)")
+LEVEL_NOTE = ("the clause 'rounding remainders go to the community pool or stay credited' is refuted by the model and reproduced on the real "
+              "code (C16_remainder_refuted, known finding C16-allocation-dust: per-validator truncation dust stays in the distribution "
+              "module account unrecorded, bound proved in C16_remainder); the forfeited credit on a failing FundCommunityPool was fixed "
+              "in /repo 2504227 (C16_failed_community_funding_keeps_credit, corpus/C16/forfeit_on_community_pool_failure.json)")
 
 P = 10 ** 18
 
@@ -256,6 +257,8 @@ CLAUSES = {
     14: "a transmission sent some allowed denoms but not all",
     15: "LastTransmissionBlockHeight not updated exactly at the transmission period",
     16: "a configuration operation changed credits or rewards",
+    18: "credit was consumed but neither validators nor the community pool received it (loss beyond the proved dust bound T*(n-1)*10^-18 per allocation)",
+    19: "allocation dust: part of the coins moved into the distribution account is recorded neither as outstanding rewards, nor in the community pool, nor as remaining credit (known finding C16-allocation-dust, within the proved bound)",
     99: "no observation",
 }
 
@@ -264,10 +267,18 @@ def describe(codes):
     return "; ".join(CLAUSES.get(c, str(c)) for c in codes)
 
 
+def known(case, inp, implobs, modelobs, mon):
+    """The dust finding, and nothing else: only clause 19 fails (so the loss is within the proved bound, clause 18
+    holds) and the implementation behaves exactly as the model."""
+    if mon == [19] and implobs == modelobs:
+        return "C16-allocation-dust"
+    return None
+
+
 def histogram(part, c):
     names = {1: "fund", 2: "credit", 3: "receive", 4: "begin_block", 5: "change_denoms", 6: "allowlist", 7: "commission",
              8: "set_valset", 9: "epoch_valset", 10: "params", 11: "consumer_block", 12: "consumer_params", 13: "relay", 14: "timeout"}
     return sorted({names[o[0]] for o in c["ops"]}) + ["nc=%d" % c["nc"]]
 
 
-PARTS = [Part("e2e", "c16", "rewards", gen, project=project, nontrivial=nontrivial, describe=describe)]
+PARTS = [Part("e2e", "c16", "rewards", gen, project=project, nontrivial=nontrivial, describe=describe, known=known)]
